@@ -93,6 +93,51 @@ func thresholdArg(t string) []string {
 	return []string{"--threshold=" + t}
 }
 
+// finiteDecimal returns the exact decimal expansion of r if it is finite
+// and has at most 15 significant digits.
+func finiteDecimal(r *big.Rat) (string, bool) {
+	den := new(big.Int).Set(r.Denom())
+	for _, f := range []int64{2, 5} {
+		bf, m := big.NewInt(f), new(big.Int)
+		for {
+			q, rem := new(big.Int).QuoRem(den, bf, m)
+			if rem.Sign() != 0 {
+				break
+			}
+			den = q
+		}
+	}
+	if den.Cmp(big.NewInt(1)) != 0 {
+		return "", false
+	}
+	s := r.FloatString(40)
+	s = strings.TrimRight(s, "0")
+	s = strings.TrimSuffix(s, ".")
+	if s == "" {
+		s = "0"
+	}
+	if back, ok := new(big.Rat).SetString(s); !ok || back.Cmp(r) != 0 || sigDigits(s) > 15 {
+		return "", false
+	}
+	return s, true
+}
+
+// sigDigits counts the significant decimal digits of a plain decimal
+// numeral (100 for anything else, e.g. an exponent form).
+func sigDigits(t string) int {
+	t = strings.TrimPrefix(t, "-")
+	if t == "" || strings.Trim(t, "0123456789.") != "" {
+		return 100
+	}
+	d := strings.ReplaceAll(t, ".", "")
+	d = strings.TrimLeft(d, "0")
+	if !strings.Contains(t, ".") {
+		// trailing zeros of an integer are not significant for float64 exactness purposes below 2^53
+		d = strings.TrimRight(d, "0")
+	}
+	return len(d)
+}
+
 func thresholdValue(t string) float64 {
 	switch t {
 	case "", "n":
@@ -228,7 +273,28 @@ func judgeC11(c *Ctx, sc *Scenario) *Violation {
 		arg  string
 	}
 	var all []shown
+	// "L<k>": a threshold exactly at the level of concern of the k-th metric
+	// of this very scan, written as the exact finite decimal of
+	// value/reference when there is one of at most 15 significant digits
+	// (else as JSON v2 prints the level)
+	var ths []string
 	for _, t := range p.Thresholds {
+		if strings.HasPrefix(t, "L") && len(rowOrder) > 0 {
+			k, _ := strconv.Atoi(t[1:])
+			it := items[rowOrder[k%len(rowOrder)]]
+			ratio := new(big.Rat).SetFrac(new(big.Int).SetUint64(it.value), big.NewInt(1))
+			ratio.Quo(ratio, new(big.Rat).SetFloat64(it.ref))
+			if d, ok := finiteDecimal(ratio); ok {
+				t = d
+				c.Stats.Probe("threshold-at-exact-decimal-level-of-a-metric")
+			} else {
+				f, _ := ratio.Float64()
+				t = strconv.FormatFloat(f, 'g', -1, 64)
+			}
+		}
+		ths = append(ths, t)
+	}
+	for _, t := range ths {
 		thr := thresholdValue(t)
 		rt, v := run(append(thresholdArg(t), names))
 		if v != nil {
@@ -318,7 +384,14 @@ func judgeC11(c *Ctx, sc *Scenario) *Violation {
 					scale = big.NewRat(1, 1)
 				}
 				eps := new(big.Rat).Mul(scale, big.NewRat(1, 1_000_000_000))
-				if cmp != 0 && d.Cmp(eps) < 0 {
+				if td, ok := new(big.Rat).SetString(t); ok && ratio.Cmp(td) == 0 && sigDigits(t) <= 15 && it.value < 1<<53 {
+					// the threshold as typed is exactly value/reference and
+					// short enough to survive float64 unchanged: the
+					// correctly rounded quotient equals the parsed
+					// threshold, so this is decidable - the row is shown
+					c.Stats.Probe("value-exactly-at-fractional-threshold")
+					cmp = 0
+				} else if cmp != 0 && d.Cmp(eps) < 0 {
 					c.Stats.Probe("threshold-too-close-to-call (row skipped)")
 					continue
 				}
@@ -391,7 +464,7 @@ func checkC11(c *Ctx, rt *rapid.T) {
 	}
 	if g.Chance(1, 4, "saturate") {
 		// a saturated metric must be shown whatever the threshold is
-		sz := []uint64{1<<32 - 1, 1 << 32, 1 << 40}[g.Pick(3, "satsize")]
+		sz := []uint64{1<<32 - 1, 1 << 32, 1 << 40, 1<<53 + 1, 1<<62 + 1, 1<<64 - 1}[g.Pick(6, "satsize")]
 		b := NewObject(KBlob, []byte("saturating blob\n"))
 		b.DeclaredSize = &sz
 		b = w.Add(b)
@@ -438,6 +511,8 @@ func checkC11(c *Ctx, rt *rapid.T) {
 	for i := 0; i < n; i++ {
 		if g.Chance(1, 4, "kthr") {
 			p.Thresholds = append(p.Thresholds, strconv.Itoa(g.Int(0, 32, "kthreshold")))
+		} else if g.Chance(1, 4, "levelthr") {
+			p.Thresholds = append(p.Thresholds, fmt.Sprintf("L%d", g.Int(0, 21, "levelof")))
 		} else {
 			p.Thresholds = append(p.Thresholds, pool[g.Pick(len(pool), "thr")])
 		}
@@ -458,5 +533,5 @@ func refSet(w *World) map[string]bool {
 
 func init() {
 	Register(&Prop{ID: "C11", Check: checkC11, Replay: judgeC11, Components: componentsA,
-		Rule: "per generated world (the simulated disk steers measurements onto k*reference boundaries: declared blob sizes k*10^7 (+-1), k*10^9 in one checkout, 999/1000/1001/2000 tree entries, path lengths 99/100/101, 9/10/11/20/30 parents): JSON v1, JSON v2 and the table at 3-6 thresholds from {-v, --verbose, default, --no-verbose, --critical, 0, 1, 30, k, fractional, negative, 1e308, 1e-300}; JSON v2 value = JSON v1 value and levelOfConcern = value/referenceValue; a row is shown iff value/referenceValue >= threshold (exact rationals; comparisons within 1e-9 relative are skipped and counted) or saturated; numerals within half a unit of the last displayed digit of the JSON value with the right prefix; concern marker floor(ratio) asterisks, '!' from 31 (either for ratios strictly between 30 and 31); raising the threshold only removes rows; equal thresholds spelled differently show the same rows; threshold <= 0 shows all 22 metrics; no row <=> the single no-problems line. Pure function of the measurement vector: the simulator contributes worlds and multi-run relations only. distinct by scenario hash"})
+		Rule: "per generated world (the simulated disk steers measurements onto k*reference boundaries: declared blob sizes k*10^7 (+-1), 2^32-1, 2^32, 2^40, 2^53+1, 2^62+1, 2^64-1, k*10^9 in one checkout, 999/1000/1001/2000 tree entries, path lengths 99/100/101, 9/10/11/20/30 parents): JSON v1, JSON v2 and the table at 3-6 thresholds from {-v, --verbose, default, --no-verbose, --critical, 0, 1, 30, k, fractional, negative, 1e308, 1e-300}; JSON v2 value = JSON v1 value and levelOfConcern = value/referenceValue; a row is shown iff value/referenceValue >= threshold (exact rationals; thresholds also placed exactly at the finite-decimal level of concern of a metric of the same scan, e.g. 0.07 for 7/100, where the answer is decidable: shown; other comparisons within 1e-9 relative are skipped and counted) or saturated; numerals within half a unit of the last displayed digit of the JSON value with the right prefix; concern marker floor(ratio) asterisks, '!' from 31 (either for ratios strictly between 30 and 31); raising the threshold only removes rows; equal thresholds spelled differently show the same rows; threshold <= 0 shows all 22 metrics; no row <=> the single no-problems line. Pure function of the measurement vector: the simulator contributes worlds and multi-run relations only. distinct by scenario hash"})
 }
